@@ -149,6 +149,11 @@ class PyBoundMethod:
         self.self_obj = self_obj
 
 
+class PyStatic:
+    def __init__(self, fn):
+        self.fn = fn
+
+
 class PyProperty:
     def __init__(self, fget):
         self.fget = fget
@@ -1192,6 +1197,8 @@ class Interp:
             return PyBoundMethod(v, obj)
         if isinstance(v, PyProperty):
             return self.call(v.fget, [obj], {})
+        if isinstance(v, PyStatic):
+            return v.fn
         if isinstance(v, (staticmethod, classmethod)):
             raise Unsupported("static/class methods")
         if isinstance(v, (types.FunctionType, types.BuiltinFunctionType, types.MethodDescriptorType,
